@@ -87,6 +87,8 @@ def spec_translate(text):
           prv.type in (tokenize.NAME, tokenize.NUMBER) or prv.string == "."):
         raise NotValid("unclear", "`$` glued to a preceding name, number or dot")
       if nxt is not None and nxt.type == tokenize.NAME and nxt.start == t.end:
+        if not nxt.string.isascii():
+          raise NotValid("unclear", "`$` before a non-ASCII name (column ids are ASCII)")
         edits.append(t.start)
       else:
         raise NotValid("invalid", "`$` not followed by a name")
@@ -588,7 +590,7 @@ def main():
     "bounded: the listed special cases, all texts of length <= 3 over a 12-character alphabet "
     "(L1), seeded grammar-generated / mutated / random texts; not a proof",
     "the independent specification decides validity conservatively: texts it cannot classify "
-    "(empty text, `$` glued to a preceding name / number / dot as in `a$b`, `$a.$s`, indented text with multi-line strings, yield / "
+    "(empty text, `$` glued to a preceding name / number / dot as in `a$b`, `$a.$s`, `$` before a non-ASCII name, indented text with multi-line strings, yield / "
     "await, IF/ISERR/ISERROR/IFERROR/PEEK, imports, global/nonlocal, non-\\n line separators) are "
     "checked for isolation only",
     "values whose encoding is an object repr ('U') are not compared",
